@@ -243,7 +243,7 @@ C05_Open(mon, r) ==
 NoSess == [conn |-> 0, sentOpen |-> FALSE, gotOpen |-> FALSE, sentKa |-> FALSE, H |-> 0, start |-> 0, heard |-> 0, kasent |-> 0]
 \* stopped: "no" | "yes" (manual stop in force) | "breached" (a violation of C13 was already reported for this stop)
 Mon0 == [cfg |-> [hold |-> 0, tnum |-> 1, tden |-> 1, las_hi |-> 0, las_lo |-> 0, caps |-> <<>>, idle |-> 0], stopped |-> "no",
-         sess |-> NoSess, bgpid |-> <<>>, statok |-> TRUE, opencaps |-> <<-1>>, coop0 |-> -1]
+         sess |-> NoSess, bgpid |-> <<>>, statok |-> TRUE, opencaps |-> <<-1>>, coop0 |-> -1, restarted |-> FALSE]
 
 Min(a, b) == IF a < b THEN a ELSE b
 \* monitor update after a line (uses observable fields only)
@@ -264,6 +264,7 @@ NextMon(mon, r) ==
    ELSE [mon EXCEPT !.stopped = IF r.cls = "STOP" THEN "yes" ELSE IF r.cls = "START" THEN "no"
                                  ELSE IF @ = "yes" /\ ~C13_Silent(r, TRUE) THEN "breached" ELSE @,
                     !.statok = StatOk(r),
+                    !.restarted = IF r.cls = "STOP" THEN FALSE ELSE IF r.cls = "START" /\ mon.stopped # "no" THEN TRUE ELSE @,
                     !.coop0 = IF r.cls = "COOP" THEN r.now ELSE @,
                     !.sess = NextSess(mon, r),
                     !.opencaps = IF @ = <<-1>> /\ (\E k \in 1..Len(r.out) : r.out[k].type = "OPEN" /\ r.out[k].wf)
@@ -288,6 +289,8 @@ Check(mon, r) ==
    /\ Chk("C13", r, "C13.stop", C13_Stop(r), <<>>)
    /\ Chk("C13", r, "C13.silent", C13_Silent(r, stp), <<>>)
    /\ Chk("C13", r, "C13.start", C13_Start(r, stp), <<>>)
+   \* "automatic recovery is in force again": once restarted by the operator, a reconnection source exists after every step
+   /\ Chk("C13", r, "C13.recovery", (mon.restarted /\ r.cls # "STOP") => C02_Pending(r, FALSE), <<r.live, r.pend>>)
    /\ Chk("C18", r, "C18.stat", C18_Stat(mon, r), <<r.sS, r.wS, r.sR, r.wR>>)
    /\ Chk("C10", r, "C10.noescape", C10_NoEscape(r), <<>>)
    /\ Chk("C10", r, "C10.onereport", C10_OneReport(r), r.rep)
